@@ -79,6 +79,10 @@ pub struct PCase {
     /// regression files use it (the generator leaves it empty)
     #[serde(default)]
     pub chaos: Vec<(String, u64)>,
+    /// a sibling topic t2 in the same stream (unlimited, never expiring) filled with this many segments'
+    /// worth of data before the ops start: whatever it holds must not influence t1 (0 = no sibling)
+    #[serde(default)]
+    pub sibling_segs: u8,
 }
 
 /// generator profile per focus property
@@ -362,14 +366,16 @@ pub fn case_strategy(p: &Params) -> BoxedStrategy<PCase> {
         expiry_sel(pr.expiry),
         size_sel(pr.size_limit),
         proptest::collection::vec(op_strategy(&pr), 1..=max_ops),
+        if matches!(p.property.as_str(), "C14" | "C15") { prop_oneof![3 => Just(0u8), 2 => 1u8..=8].boxed() } else { Just(0u8).boxed() },
     )
-        .prop_map(|(cfg, partitions, expiry, max_size, ops)| PCase {
+        .prop_map(|(cfg, partitions, expiry, max_size, ops, sibling_segs)| PCase {
             cfg,
             partitions,
             expiry,
             max_size,
             ops,
             chaos: vec![],
+            sibling_segs,
         })
         .boxed()
 }
